@@ -203,6 +203,81 @@ static MeshGL64 sharedEdgeMesh(int n) {
   return g;
 }
 
+
+// Many sort-key ties above the parallel thresholds: `tets` tiny tetrahedra
+// clustered around `sites` sites in a 1000^3 box (each cluster far smaller than
+// one Morton cell), so thousands of vertices / triangles share a Morton code and
+// the exported order is decided by the STABILITY of the library's sorts.
+static MeshGL64 cloudMesh(int tets, int sites) {
+  MeshGL64 m;
+  m.numProp = 4;  // x y z + particle id
+  Lcg g{12345};
+  std::vector<double> site(3 * sites);
+  for (int s = 0; s < sites; ++s)
+    for (int k = 0; k < 3; ++k) {
+      const int cell = 16 + static_cast<int>(g.next() * 990.0);
+      site[3 * s + k] = (cell + 0.5) * (1000.0 / 1023.0);
+    }
+  const double d[4][3] = {{0, 0, 0}, {1, 0, 0}, {0, 1, 0}, {0, 0, 1}};
+  const uint64_t f[4][3] = {{0, 2, 1}, {0, 1, 3}, {0, 3, 2}, {1, 2, 3}};
+  const double size = 0.01;
+  for (int t = 0; t < tets; ++t) {
+    double c[3];
+    if (t == 0) {
+      c[0] = c[1] = c[2] = 0.0;
+    } else if (t == 1) {
+      c[0] = c[1] = c[2] = 1000.0 - size;  // pins the bounding box
+    } else {
+      const int s = (t * 7) % sites;  // interleave the sites
+      for (int k = 0; k < 3; ++k) c[k] = site[3 * s + k] + (g.next() - 0.5) * 0.2;
+    }
+    const uint64_t base = m.vertProperties.size() / 4;
+    for (int v = 0; v < 4; ++v) {
+      for (int k = 0; k < 3; ++k) m.vertProperties.push_back(c[k] + size * d[v][k]);
+      m.vertProperties.push_back(static_cast<double>(t));
+    }
+    for (int i = 0; i < 4; ++i)
+      for (int k = 0; k < 3; ++k) m.triVerts.push_back(base + f[i][k]);
+  }
+  return m;
+}
+
+// A large mesh whose vertices share Morton codes because the bounding box is
+// dominated by one far-away tiny component.
+static MeshGL64 farBoxMesh(int n, double far) {
+  MeshGL64 s = Manifold::Sphere(1.0, n).GetMeshGL64();
+  MeshGL64 g;
+  g.numProp = 3;
+  for (size_t i = 0; i < s.vertProperties.size() / s.numProp; ++i)
+    for (int k = 0; k < 3; ++k) g.vertProperties.push_back(s.vertProperties[i * s.numProp + k]);
+  g.triVerts = s.triVerts;
+  const uint64_t base = g.vertProperties.size() / 3;
+  const double d[4][3] = {{0, 0, 0}, {1, 0, 0}, {0, 1, 0}, {0, 0, 1}};
+  const uint64_t f[4][3] = {{0, 2, 1}, {0, 1, 3}, {0, 3, 2}, {1, 2, 3}};
+  for (int v = 0; v < 4; ++v)
+    for (int k = 0; k < 3; ++k) g.vertProperties.push_back(far + d[v][k]);
+  for (int i = 0; i < 4; ++i)
+    for (int k = 0; k < 3; ++k) g.triVerts.push_back(base + f[i][k]);
+  return g;
+}
+
+// 2-D: `n` tiny squares clustered around `sites` sites in a 1000^2 box
+static Polygons cloudPolys(int n, int sites) {
+  Polygons ps;
+  Lcg g{777};
+  std::vector<double> site(2 * sites);
+  for (auto& x : site) x = 10.0 + g.next() * 980.0;
+  ps.push_back({{0.0, 0.0}, {0.01, 0.0}, {0.01, 0.01}, {0.0, 0.01}});
+  ps.push_back({{999.0, 999.0}, {999.01, 999.0}, {999.01, 999.01}, {999.0, 999.01}});
+  for (int i = 2; i < n; ++i) {
+    const int s = (i * 7) % sites;
+    const double x = site[2 * s] + (g.next() - 0.5) * 0.5, y = site[2 * s + 1] + (g.next() - 0.5) * 0.5;
+    const double w = 0.001;
+    ps.push_back({{x, y}, {x + w, y}, {x + w, y + w}, {x, y + w}});
+  }
+  return ps;
+}
+
 static void runProgram(const std::string& kind, double a, double b, double c,
                        Out& o) {
   const int n = static_cast<int>(a);
@@ -280,6 +355,24 @@ static void runProgram(const std::string& kind, double a, double b, double c,
     o.add("ncomp", ds.size());
     for (size_t i = 0; i < ds.size(); ++i)
       hashMesh(o, "c" + std::to_string(i) + ".", ds[i]);
+  } else if (kind == "cloud") {  // many Morton ties, imported via MeshGL
+    Manifold m(cloudMesh(n, static_cast<int>(b)));
+    hashMesh(o, "", m.Translate(vec3(1.0, 2.0, 3.0)));
+  } else if (kind == "cloudbool") {  // the same cloud through a Boolean
+    Manifold m(cloudMesh(n, static_cast<int>(b)));
+    hashMesh(o, "", m - Manifold::Cube(vec3(500.0)).Translate(vec3(100.0)));
+  } else if (kind == "farbox") {
+    Manifold m(farBoxMesh(n, b));
+    hashMesh(o, "", m);
+    hashMesh(o, "ref.", m.Refine(2));
+  } else if (kind == "cscloud") {
+    Polygons ps = cloudPolys(n, static_cast<int>(b));
+    CrossSection cs(ps);
+    hashPolys(o, "u.", cs.ToPolygons());
+    hashPolys(o, "off.", cs.Offset(0.0005, JoinType::Miter).ToPolygons());
+    hashMesh(o, "ext.", Manifold::Extrude(cs.ToPolygons(), 1.0));
+  } else if (kind == "tricloud") {
+    hashTris(o, "", Triangulate(cloudPolys(n, static_cast<int>(b)), -1, true));
   } else if (kind == "dedupe") {
     Manifold m(sharedEdgeMesh(n));
     hashMesh(o, "", m);
